@@ -93,8 +93,22 @@ pub fn log_len() -> usize {
     g.as_ref().map(|s| s.log.len()).unwrap_or(0)
 }
 
+thread_local! {
+    /// free-running mode (Miri): each simulated thread draws from its own generator, so that drawing
+    /// does not synchronise the threads with each other
+    static THREAD_RNG: std::cell::RefCell<Option<Rng>> = const { std::cell::RefCell::new(None) };
+}
+
+pub fn set_thread_rng(seed: u64) {
+    THREAD_RNG.with(|r| *r.borrow_mut() = Some(Rng::new(seed)));
+}
+
 /// Draw a value in `0..bound` (bound >= 1).
 pub fn draw(bound: u32) -> u32 {
+    let local = THREAD_RNG.with(|r| r.borrow_mut().as_mut().map(|g| (g.next() % bound.max(1) as u64) as u32));
+    if let Some(v) = local {
+        return v;
+    }
     crate::heap::harness(|| {
         let mut g = STATE.lock().unwrap_or_else(|e| e.into_inner());
         let s = g.as_mut().expect("choice stream not started");
